@@ -35,7 +35,7 @@ ASSUMPTIONS = [
 CONVERGE = 24
 TX_BOUND = 24
 BOUNDS = "BMC from reset; control inputs free every cycle (layers: constant / free), DIR/NXT free within contract + " \
-         "fairness; quick K=32, thorough K=44"
+         "fairness; quick K=28 (26 fully free), thorough K=40 (38 fully free)"
 OUTSIDE = "unbounded liveness (only the stated cycle bounds); extra registers (add_extra_register); PHYs slower than " \
           "the fairness bound; register reads; K beyond the bounds"
 
@@ -63,6 +63,9 @@ class CtrlHarness(Harness):
         cov = ["fc_written", "otg_written", "both_written", "aborted_then_written", "converged_after_write",
                "change_in_flight", "tx_after_write", "write_after_tx"]
         self.c = {n: self.cover(n) for n in cov}
+        # scenario predicates of the recorded findings (see FINDINGS above and known_findings.json)
+        self.kfs = {n: self.kf(n) for n in ("tx_and_regwrite_same_cycle_deadlock", "regwrite_requested_during_txcmd",
+                                            "control_input_changed_while_write_in_flight")}
 
     def elaborate(self, platform):
         m = Module()
@@ -142,6 +145,43 @@ class CtrlHarness(Harness):
             d += txw.eq(txw + 1)
         m.d.comb += v["tx_progress"].eq(txw == TX_BOUND)
 
+        # ---- scenario predicates of the recorded findings: sticky since the triggering coincidence, cleared once the
+        # bus has been demonstrably clean again (registers equal the request, nothing on the bus) for 4 cycles
+        write_wanted = Signal(name="write_wanted")
+        inflight_w = Signal(name="inflight_w")
+        m.d.comb += [
+            write_wanted.eq((req_fc != phy.reg_fc) | (req_otg != phy.reg_otg)),
+            inflight_w.eq(phy.cmd_rw | phy.in_state(phy.RW_DATA) | phy.in_state(phy.RW_STP)),
+        ]
+        tx_pending = tx_valid & ~phy.in_state(phy.TX)
+        age = Signal(2, name="age")                      # cycles since reset, saturating
+        with m.If(age != 3):
+            d += age.eq(age + 1)
+        p_pending = Signal(name="p_write_pending")       # a write was wanted or on the bus in the previous cycle
+        d += p_pending.eq(write_wanted | inflight_w)
+        set_now = {
+            # a transmission is waiting to start (TXCMD not on the bus yet) in a cycle in which a register write is
+            # wanted or running: both sides may claim the bus in the same cycle
+            "tx_and_regwrite_same_cycle_deadlock": tx_pending & ~phy.cmd_tx & ~dir_ & (write_wanted | inflight_w),
+            # a register write becomes wanted while the TXCMD byte is on the bus waiting for / getting NXT
+            "regwrite_requested_during_txcmd": phy.cmd_tx & write_wanted,
+            # control inputs change (from the third cycle on) while a write is wanted or on the bus
+            "control_input_changed_while_write_in_flight": changed & (age >= 2) & p_pending,
+        }
+        clean = ~write_wanted & ~inflight_w & ~tx_valid & ~dir_ & phy.in_state(phy.IDLE) & ~phy.cmd_present & ~changed
+        clean_run = Signal(3, name="clean_run")
+        with m.If(~clean):
+            d += clean_run.eq(0)
+        with m.Elif(clean_run != 4):
+            d += clean_run.eq(clean_run + 1)
+        for n, s_now in set_now.items():
+            flag = Signal(name=f"kfreg_{n}")
+            with m.If(s_now):
+                d += flag.eq(1)
+            with m.Elif(clean_run == 4):
+                d += flag.eq(0)
+            m.d.comb += self.kfs[n].eq(flag | s_now)
+
         # ---- covers
         fc_w, otg_w, ab, wr_any, tx_done = (Signal(name=n) for n in ("fc_w", "otg_w", "ab", "wr_any", "tx_done"))
         with m.If(commit_fc):
@@ -190,7 +230,7 @@ class CtrlHarness(Harness):
 
 def queries(tier):
     quick = tier == "quick"
-    K = 32 if quick else 44
+    K = 28 if quick else 40
     f_const_notx = lambda: CtrlHarness(const_ctrl=True, with_tx=False)
     f_const = lambda: CtrlHarness(const_ctrl=True, with_tx=True)
     f_free_notx = lambda: CtrlHarness(const_ctrl=False, with_tx=False)
@@ -203,7 +243,7 @@ def queries(tier):
               desc="layer: control inputs constant (symbolic), transmit side free: start-up writes against transmissions"),
         Query("bmc_changes", f_free_notx, K, covers=["change_in_flight"], timeout=900,
               desc="layer: control inputs free every cycle, no transmission"),
-        Query("bmc_free", f_free, K, covers=["write_after_tx"], timeout=900,
+        Query("bmc_free", f_free, K - 2, covers=["write_after_tx"], timeout=900,
               desc="control inputs free every cycle, transmit side free, DIR/NXT free within contract and fairness"),
         Query("cosim", f_free, 0, kind="cosim", cosim_cycles=300 if quick else 2000),
     ]
